@@ -60,6 +60,7 @@ def k1(ctx, kr):
         if len(resp) != 1 or ids != [7]:
             role = 'C12/K1/unanswered/unknown-method' if mname == 'some/otherMethod' else 'C12/K1/responses/%s/%d' % (mname, len(resp))
             _add(kr, role, 'a request for method %s gets %d responses (ids %s) instead of exactly one with its id' % (mname, len(resp), ids), wit, ('lsp_request', (mname, False)))
+        elif len(kr.validate) < 2: kr.validate.append(('lsp_request', (mname, False)))
         if len(kr.samples) < 4: kr.samples.append({'request': wit, 'responses': len(resp)})
     M.explore(entry, on_path)
     kr.queries += M.stats['smt']
